@@ -7,6 +7,7 @@ from collections.abc import Iterable, Iterator, Mapping, Sequence
 from collections.abc import Set as AbstractSet
 from dataclasses import dataclass
 from enum import Enum, auto
+from functools import cache
 from math import prod
 from typing import (
     TYPE_CHECKING,
@@ -2911,10 +2912,13 @@ class UnregisteredAttr(ParametrizedAttribute, BuiltinAttribute, ABC):
                 printer.print_string(f"<{self.value.data}>")
 
     @classmethod
+    @cache
     def with_name_and_type(cls, name: str, is_type: bool) -> type[UnregisteredAttr]:
         """
-        Return a new unregistered attribute type given a name and a
+        Return the unregistered attribute type for a name and a
         boolean indicating if the attribute can be a type.
+        The class is created once per (name, is_type), so that the same text parsed
+        in two contexts gives equal attributes.
         This function should not be called directly. Use methods from
         `Context` to get an `UnregisteredAttr` type.
         """
